@@ -9,6 +9,8 @@ point of the body: 0 none, 1 shared, 2 exclusive).
 type, and never used as a value) is entered with the minimum over ALL its call sites of max(entry of the caller, level
 at the site), iterated to a fixpoint for helpers of helpers; a helper called once with and once without the lock is
 unlocked, one without any call site too. Every other function may be called from anywhere holding nothing (level 0).
+A read named `<field>~` is a mention of a local variable derived from that field (for `pool`: the lists and the slices
+they hand out), judged at the level held where the local is *used*.
 `violations` lists every write, list mutation or hash-index update that can happen below the exclusive level and every
 read of a guarded field that can happen with no lock at all. Core Lean only.
 -/
